@@ -9,9 +9,10 @@ ASSUMPTIONS = [
     "the reference (harness/treeref.py) recomputes U, B, thresholds and the admissible refresh epochs from the harness' own ledger of (cell, reward) pairs; the implementation's stored u/b values are proved equal to it (|diff| <= 1e-9) on every path",
     "parameter tuples satisfy c1*delta <= 1/2 so that the two clamps of delta~ used by the code coincide with the published one (DESIGN §5a.3)",
     "at rounds crossing a power of two the published pseudo-code and the implementation order 'refresh' and 'increment t' differently; both epochs are admitted (DESIGN §5a.2); ties between sibling B-values may be broken either way",
+    "kernel configurations: compute_u_value / compute_tau_hi_value of the three node classes on a directly constructed node (depth 0..4, 1..3 symbolic rewards) with SYMBOLIC nu>0, 0<rho<1, c>0, 0<delta~<=1/2, bound>0, rounds>=2: sqrt exact, log uninterpreted and shared by both sides (QF_UFNRA)",
     "confidence widths are concrete on a path (counts and parameters are concrete) and computed by libm; VHCT's variance-dependent widths/thresholds are symbolic (sqrt exact, QF_NRA)",
 ]
-TIMEOUT_MS = {"quick": 5000, "thorough": 10000}
+TIMEOUT_MS = {"quick": 10000, "thorough": 30000}
 
 GRID = {
     "T_HOO": [{}, {"nu": 1, "rho": 0.9}, {"nu": 0.1, "rho": 0.5}, {"nu": 10, "rho": 0.3, "rounds": 1000}, {"nu": 0.3, "rho": 0.5}, {"nu": 0.15, "rho": 0.5}],
@@ -59,11 +60,82 @@ def configs(tier, seed, prefix="index"):
                     pre = dict({"P": P, "k": k, "seed": sd, "peak": (0.3, 0.8, 0.55, 0.1)[sd], "noise": 0.25}, **extra)
                     out.append({"name": "%s-%s-%s-d1-P%d+%d-s%d" % (prefix, algo, part, P, k, sd), "algo": algo, "part": part, "d": 1, "T": P + k,
                                 "params": GRID[algo][1] if (algo == "HCT" and sd in (1, 2)) else {}, "prefix": pre, "cost": P * 4 * (5 if algo == "VHCT" else 1)})
+    if prefix == "index":
+        for algo in ("T_HOO", "HCT", "VHCT"):
+            for h in (0, 1, 2, 3, 4):
+                for m in ((1, 2, 3) if algo != "VHCT" else (1, 2)):
+                    out.append({"name": "kernel-%s-h%d-m%d" % (algo, h, m), "mode": "kernel", "algo": algo, "h": h, "m": m, "part": "B", "d": 1, "T": 0, "cost": 50 if algo == "VHCT" else 5})
     out.append({"name": "twin-" + prefix, "algo": "HCT", "part": "B", "d": 1, "T": 3, "params": {}, "twin": True, "expect_fail": "twin"})
     return out
 
 
+def setup(mods_):
+    from sx import ufmodel
+    ufmodel.install()
+
+
+def run_kernel(ctx, cfg):
+    """compute_u_value / compute_tau_hi_value of one node class on a directly constructed node with
+    symbolic rewards AND symbolic parameters: the published formula for every parameter value"""
+    from harness.common import mods
+    from harness.treeref import mean_of, var_of, fsqrt
+    from sx import ufmodel
+    from sx.engine import CeilSym, Sym
+    ufmodel.reset()
+    import math as _math
+
+    def flog(x):
+        return x.log() if isinstance(x, Sym) else _math.log(x)
+
+    algo, h, m = cfg["algo"], cfg["h"], cfg["m"]
+    mod = mods()[{"T_HOO": "HOO"}.get(algo, algo)]
+    cls = getattr(mod, {"T_HOO": "HOO_node", "HCT": "HCT_node", "VHCT": "VHCT_node"}[algo])
+    node = cls(h, 1, None, [[0.0, 1.0]])
+    rs = [ctx.real("r%d" % i) for i in range(m)]
+    for r in rs:
+        ctx.call("update_reward", node.update_reward, r)
+    nu = ctx.real("nu")
+    rho = ctx.real("rho")
+    ctx.assume(nu > 0)
+    ctx.assume(rho > 0)
+    ctx.assume(rho < 1)
+    mean = mean_of(rs)
+    if algo == "T_HOO":
+        n = ctx.real("rounds", 2)
+        ctx.call("compute_u_value", node.compute_u_value, nu=nu, rho=rho, rounds=n)
+        want = mean + nu * rho ** h + fsqrt(2 * flog(n) / m)
+        ctx.check_eq("kernel:u_value", node.get_u_value(), want, "T-HOO U-value != mean + nu*rho^h + sqrt(2 ln n / T) for symbolic nu, rho, n")
+        return
+    c = ctx.real("c")
+    dt = ctx.real("delta_tilde")
+    ctx.assume(c > 0)
+    ctx.assume(dt > 0)
+    ctx.assume(dt <= 0.5)
+    L = flog(1 / dt)
+    if algo == "HCT":
+        ctx.call("compute_u_value", node.compute_u_value, nu=nu, rho=rho, c=c, delta_tilde=dt)
+        want = mean + nu * rho ** h + c * fsqrt(L / m)
+        ctx.check_eq("kernel:u_value", node.get_u_value(), want, "HCT U-value != mean + nu*rho^h + c*sqrt(ln(1/delta~)/T) for symbolic nu, rho, c, delta~")
+        return
+    b = ctx.real("bound")
+    ctx.assume(b > 0)
+    V = var_of(rs, 1e-3)
+    ctx.call("compute_u_value", node.compute_u_value, nu=nu, rho=rho, c=c, bound=b, delta_tilde=dt)
+    want = mean + nu * rho ** h + fsqrt(2 * c * c * V * L / m) + 3 * b * c * c * L / m
+    ctx.check_eq("kernel:u_value", node.get_u_value(), want, "VHCT U-value != mean + nu*rho^h + sqrt(2 c^2 V ln(1/delta~)/T) + 3 b c^2 ln(1/delta~)/T")
+    ctx.call("compute_tau_hi_value", node.compute_tau_hi_value, nu=nu, rho=rho, c=c, bound=b, delta_tilde=dt)
+    tau = node.get_tau_hi_value()
+    k = 3 * b * nu * rho ** h
+    x = (V + k + V * fsqrt(1 + 2 * k / V)) * (c * c * L * rho ** (-2 * h) / (nu * nu))
+    if isinstance(tau, CeilSym):
+        ctx.check_eq("kernel:tau", Sym(tau.arg), x, "VHCT threshold is not the ceiling of the published expression")
+    else:
+        ctx.fail("kernel:tau", "threshold is not a ceiling: %r" % (tau,))
+
+
 def run(ctx, cfg):
+    if cfg.get("mode") == "kernel":
+        return run_kernel(ctx, cfg)
     ref = TreeRef(**WHICH)
     algo, dom, rs, lp = drive(ctx, cfg, [ref], last_point=False)
     if cfg.get("twin"):
